@@ -426,6 +426,9 @@ def r3(ctx: Ctx) -> None:
             if t is None:
                 continue
             reach_t = reachable_from(g, t, NORMAL)
+            reach_f = reachable_from(g, fl, NORMAL) if fl is not None else set()
+            if not any(n.id in reach_t or n.id in reach_f for n in writes):
+                continue  # a test of the capability AFTER the write (classifying its failure): it selects no write
             plain_on_true = [n for n in writes if ctx.eff.storage_op(n) != "write_file_cas" and n.id in reach_t
                              and (fl is None or True)]
             # a plain write reachable from the true edge is only acceptable if it is ALSO unreachable... no: never acceptable
